@@ -34,6 +34,8 @@ def main():
     ap.add_argument("--features", default="")
     ap.add_argument("--demo-file", default="demo.rs")
     ap.add_argument("--demo-mode", default="append", help="append | file (copy to demo_target)")
+    ap.add_argument("--demo2-file", default="", help="optional second demo file (appended to --demo2-target)")
+    ap.add_argument("--demo2-target", default="")
     ap.add_argument("--skip-confirm", action="store_true")
     ap.add_argument("--needs", default="")
     ap.add_argument("--props", default="", help="comma list of properties to run (default: all)")
@@ -54,6 +56,9 @@ def main():
     confirm = {}
 
     def put_demo():
+        if a.demo2_file:
+            with open(os.path.join(wt, a.demo2_target), "a") as f:
+                f.write("\n" + open(os.path.join(md, a.demo2_file)).read())
         if a.demo_mode == "append":
             with open(os.path.join(wt, a.demo_target), "a") as f:
                 f.write("\n" + open(demo).read())
@@ -101,10 +106,12 @@ def main():
         os.makedirs(dst, exist_ok=True)
         shutil.copy(patch, os.path.join(dst, "patch.diff"))
         shutil.copy(demo, os.path.join(dst, os.path.basename(demo)))
+        if a.demo2_file:
+            shutil.copy(os.path.join(md, a.demo2_file), os.path.join(dst, a.demo2_file))
         if os.path.exists(os.path.join(md, "README.md")):
             shutil.copy(os.path.join(md, "README.md"), os.path.join(dst, "README.md"))
         meta = {"seed_id": a.seed_id, "breaks_property": a.prop, "needs_to_manifest": a.needs,
-                "demo": {"file": os.path.basename(demo), "placement": "%s %s" % (a.demo_mode, a.demo_target), "test_filter": a.demo_filter, "crate": a.crate, "features": a.features},
+                "demo": {"file": os.path.basename(demo), "placement": "%s %s" % (a.demo_mode, a.demo_target) + ((" ; append %s to %s" % (a.demo2_file, a.demo2_target)) if a.demo2_file else ""), "test_filter": a.demo_filter, "crate": a.crate, "features": a.features},
                 "confirmation": confirm, "what_i_ran": ran, "checks": {}}
         json.dump(meta, open(os.path.join(dst, "meta.json"), "w"), indent=1)
         return 0
